@@ -408,6 +408,14 @@ class Interp(object):
             if isinstance(v, SymSeq):
                 return self.ctx.branch(v.length.t > 0)
             raise Unsupported("truth value of %r" % (v,))
+        if isinstance(v, FmtStr):
+            from .text import Lit as _Lit, Dec as _Dec, Emb as _Emb
+            if any(isinstance(t, (_Lit, _Dec)) for t in v.tokens):
+                return True
+            embs = [t for t in v.tokens if isinstance(t, _Emb)]
+            if not embs:
+                return False
+            return self.ctx.branch(z3.Or(*[z3.Length(t.s.t) > 0 for t in embs]))
         return bool(v)
 
     def not_(self, v):
@@ -427,6 +435,10 @@ class Interp(object):
              ast.MatMult: operator.imatmul}
 
     def binop(self, op, a, b, inplace=False):
+        if hasattr(a, 'pyvc_binop'):
+            return a.pyvc_binop(self, op, b, False)
+        if hasattr(b, 'pyvc_binop'):
+            return b.pyvc_binop(self, op, a, True)
         if not (isinstance(a, Sym) or isinstance(b, Sym)):
             if isinstance(a, FmtStr) or isinstance(b, FmtStr):
                 return fmt_binop(self, op, a, b)
@@ -489,6 +501,8 @@ class Interp(object):
     def unaryop(self, op, v):
         if isinstance(op, ast.Not):
             return self.not_(v)
+        if hasattr(v, 'pyvc_unary'):
+            return v.pyvc_unary(self, op)
         if isinstance(v, Sym):
             if isinstance(op, ast.USub) and isinstance(v, (SInt, SReal, SBool)):
                 t, i = S._num_term(v)
@@ -612,6 +626,9 @@ class Interp(object):
     _prop_cache = {}
 
     def getattr(self, obj, name):
+        if getattr(obj, '_pyvc_model', False) and not isinstance(obj, type):
+            from .timemodel import model_getattr
+            return model_getattr(self, obj, name)
         if isinstance(obj, SymMap):
             return map_getattr(self, obj, name)
         if isinstance(obj, (Sym, FmtStr, SymSeq)):
@@ -754,7 +771,7 @@ class Interp(object):
     def instantiate(self, cls, args, kwargs):
         if cls is type and len(args) == 1 and not kwargs:
             v = args[0]
-            return v.pytype if isinstance(v, (Sym, FmtStr, SymSeq)) else type(v)
+            return v.pytype if (isinstance(v, (Sym, FmtStr, SymSeq)) or getattr(v, '_pyvc_model', False)) else type(v)
         if cls is super:
             return self.call_native(cls, args, kwargs)
         meta = type(cls)
@@ -1566,14 +1583,18 @@ def _has_yield(node):
     return False
 
 
+def _is_symbolic(a):
+    return isinstance(a, (Sym, FmtStr, SymSeq, SymSlice, SymMap)) or getattr(a, '_pyvc_model', False)
+
+
 def _has_sym(args, kwargs):
-    for a in args:
-        if isinstance(a, (Sym, FmtStr, SymSeq, SymSlice, SymMap)):
+    import collections
+    for a in list(args) + list(kwargs.values()):
+        if _is_symbolic(a):
             return True
-        if type(a) in (list, tuple) and any(isinstance(x, (Sym, FmtStr, SymSeq)) for x in a):
+        if type(a) in (list, tuple, collections.deque) and len(a) <= 64 and any(_is_symbolic(x) for x in a):
             return True
-    for a in kwargs.values():
-        if isinstance(a, (Sym, FmtStr, SymSeq)):
+        if type(a) is dict and len(a) <= 64 and any(_is_symbolic(x) for x in a.values()):
             return True
     return False
 
